@@ -25,6 +25,9 @@ static ERROR_EVENTS: AtomicU64 = AtomicU64::new(0);
 static WARN_EVENTS: AtomicU64 = AtomicU64::new(0);
 static LAST_PANIC: Mutex<Option<String>> = Mutex::new(None);
 static INIT: Once = Once::new();
+thread_local! {
+    static CACHED_RT: RefCell<Option<tokio::runtime::Runtime>> = const { RefCell::new(None) };
+}
 static IN_OP: std::sync::atomic::AtomicUsize = std::sync::atomic::AtomicUsize::new(0);
 
 struct CountingSubscriber;
@@ -171,11 +174,18 @@ where
     let m2 = monitor.clone();
     IN_OP.fetch_add(1, Ordering::SeqCst);
     let r = std::panic::catch_unwind(std::panic::AssertUnwindSafe(move || {
+        // Current-thread runtimes are kept per OS thread and reused (building one per
+        // operation costs a set of blocking-pool threads each time); multi-thread ones
+        // are built fresh. After a panic the cached runtime is discarded.
         let runtime = match rt {
-            Rt::Current => tokio::runtime::Builder::new_current_thread()
-                .enable_all()
-                .build()
-                .expect("build runtime"),
+            Rt::Current => CACHED_RT
+                .with(|c| c.borrow_mut().take())
+                .unwrap_or_else(|| {
+                    tokio::runtime::Builder::new_current_thread()
+                        .enable_all()
+                        .build()
+                        .expect("build runtime")
+                }),
             Rt::Multi(n) => tokio::runtime::Builder::new_multi_thread()
                 .worker_threads(n)
                 .enable_all()
@@ -186,16 +196,22 @@ where
         // Let detached tasks (e.g. the lock removal spawned by GarbageCollectionLock::drop)
         // run to completion, as they would in a process that keeps its runtime alive.
         let handle = runtime.handle().clone();
+        let mut quiet = false;
         runtime.block_on(async {
             for _ in 0..2000 {
                 tokio::task::yield_now().await;
                 if handle.metrics().num_alive_tasks() == 0 {
+                    quiet = true;
                     break;
                 }
                 tokio::time::sleep(std::time::Duration::from_millis(1)).await;
             }
         });
-        drop(runtime);
+        if rt == Rt::Current && quiet {
+            CACHED_RT.with(|c| *c.borrow_mut() = Some(runtime));
+        } else {
+            drop(runtime);
+        }
         out
     }));
     IN_OP.fetch_sub(1, Ordering::SeqCst);
